@@ -43,6 +43,35 @@ Proof.
   exact (H 1).
 Qed.
 
+Lemma flat_map_length_eq {A B C} (f : A -> list B) (g : A -> list C) l :
+  (forall x, In x l -> length (f x) = length (g x)) -> length (flat_map f l) = length (flat_map g l).
+Proof.
+  induction l as [|x t IH]; intros H; [reflexivity|]. cbn [flat_map]. rewrite !app_length, (H x (or_introl eq_refl)), IH; [reflexivity|].
+  intros y Hy. apply H. right. exact Hy.
+Qed.
+Lemma combine_flat_map {A B C} (f : A -> list B) (g : A -> list C) l :
+  (forall x, In x l -> length (f x) = length (g x)) ->
+  combine (flat_map f l) (flat_map g l) = flat_map (fun x => combine (f x) (g x)) l.
+Proof.
+  induction l as [|x t IH]; intros H; [reflexivity|]. cbn [flat_map].
+  rewrite combine_app' by (apply H; left; reflexivity). rewrite IH; [reflexivity|]. intros y Hy. apply H. right. exact Hy.
+Qed.
+Lemma ref_spec_app a b c : ref_spec (a ++ b) c = ref_spec a c + ref_spec b c.
+Proof. unfold ref_spec. rewrite filter_app, app_length. lia. Qed.
+Lemma existsb_ext' {A} (f g : A -> bool) l : (forall x, f x = g x) -> existsb f l = existsb g l.
+Proof. intros H. induction l as [|x t IH]; [reflexivity|]. cbn. rewrite H, IH. reflexivity. Qed.
+Lemma sum01_pos {A} (f : A -> Z) l :
+  (forall x, f x = 0 \/ f x = 1) ->
+  (0 <? fold_right (fun x acc => f x + acc) 0 l) = existsb (fun x => f x =? 1) l.
+Proof.
+  intros H. assert (Hnn : forall l', 0 <= fold_right (fun x acc => f x + acc) 0 l').
+  { induction l' as [|y r IHr]; cbn; [lia|]. destruct (H y); lia. }
+  induction l as [|x t IH]; [reflexivity|]. cbn [fold_right existsb]. rewrite <- IH.
+  pose proof (Hnn t). destruct (H x) as [E|E]; rewrite E; cbn [Z.eqb orb].
+  - reflexivity.
+  - destruct (0 <? fold_right (fun x0 acc => f x0 + acc) 0 t); apply Z.ltb_lt; lia.
+Qed.
+
 Section DevSnap.
   Variable c : dcase.
   Hypothesis Hok : dcase_ok c = true.
@@ -51,6 +80,8 @@ Section DevSnap.
 
   Lemma dcase_minors : 0 <= d_minors c.
   Proof. unfold dcase_ok in Hok. rewrite !andb_true_iff, !Z.leb_le in Hok. apply Hok. Qed.
+  Lemma dcase_nvf : 0 <= d_nvf c <= 100.
+  Proof. unfold dcase_ok in Hok. rewrite !andb_true_iff, !Z.leb_le in Hok. lia. Qed.
   Lemma dcase_nodes : 0 <= d_nodes c.
   Proof. unfold dcase_ok in Hok. rewrite !andb_true_iff, !Z.leb_le in Hok. apply Hok. Qed.
 
@@ -72,7 +103,7 @@ Section DevSnap.
   Proof. intros H. unfold dkey. symmetry. apply Z.mod_unique with u; lia. Qed.
 
   (* stripping the slots of a stored group gives the group back *)
-  Lemma strip_dalloc u g : map (fun e => (fst e - fst g * 1000, snd e)) (pa_numa (dalloc u g)) = snd g.
+  Lemma strip_dalloc u g : map (fun e => (fst e - fst g * 1000, snd e)) (pa_numa (dalloc ds u g)) = snd g.
   Proof.
     cbn [dalloc pa_numa]. rewrite map_map. rewrite <- (map_id (snd g)) at 2. apply map_ext.
     intros [m ab]. cbn [fst snd]. unfold dslot. f_equal. lia.
@@ -235,16 +266,119 @@ Section DevSnap.
     cbn [types12 map app fold_right fst snd]. rewrite !pair_add_assoc, pair_add_0_l. reflexivity.
   Qed.
 
+  (* ---------- virtual functions ---------- *)
+  Definition vcontrib (t code : Z) (ka : (Z * Z) * option (list (Z * (Z * Z)))) : Z :=
+    match snd ka with
+    | Some _ => if (snd (fst ka) =? t) && memZ code (vfs_of (ddesc_of ds (fst (fst ka))) t) then 1 else 0
+    | None => 0
+    end.
+
+  Lemma vfs_bounds u t x : dvalid ds u = true -> In x (vfs_of (ddesc_of ds u) t) -> 0 <= x < 100000.
+  Proof.
+    intros Hv Hx. unfold vfs_of in Hx. destruct (find (fun y => fst y =? t) (dd_vfs (ddesc_of ds u))) as [y|] eqn:Ef; [|destruct Hx].
+    pose proof (vfgroup_valid ds (dcase_descs c Hok) u t y Hv Ef) as H. unfold vfgroup_ok in H. rewrite !andb_true_iff in H.
+    destruct H as [_ H]. rewrite forallb_forall in H. specialize (H x Hx). rewrite andb_true_iff, Z.leb_le, Z.ltb_lt in H. exact H.
+  Qed.
+
+  Lemma gvf_mem t t' code codes :
+    (t = 1 \/ t = 2) -> (t' = 1 \/ t' = 2) -> 0 <= code < 100000 -> (forall x, In x codes -> 0 <= x < 100000) ->
+    memZ (gvf t code) (map (gvf t') codes) = (t' =? t) && memZ code codes.
+  Proof.
+    intros Ht Ht' Hc Hb. induction codes as [|x r IH]; [rewrite andb_false_r; reflexivity|].
+    cbn [map]. rewrite !memZ_cons, IH by (intros y Hy; apply Hb; right; exact Hy).
+    pose proof (Hb x (or_introl eq_refl)). unfold gvf.
+    destruct (t' =? t) eqn:E; cbn [andb].
+    - apply Z.eqb_eq in E. subst t'. f_equal. apply eq_true_iff_eq. rewrite !Z.eqb_eq. lia.
+    - apply Z.eqb_neq in E. replace (t * 100000 + code =? t' * 100000 + x) with false by (symmetry; apply Z.eqb_neq; lia). reflexivity.
+  Qed.
+
+  Lemma pick_vf u t' t code :
+    dvalid ds u = true -> (t' = 1 \/ t' = 2) -> (t = 1 \/ t = 2) -> 0 <= code < 100000 ->
+    ref_spec (pick ps (dkey u t')) (gvf t code) = vcontrib t code ((u, t'), entry u t').
+  Proof.
+    intros Hv Ht' Ht Hc. unfold pick, entry, vcontrib. rewrite find_key, HL. cbn [fst snd].
+    destruct (dexp ds (dsel ds life live) node (dkey u t')) as [p|] eqn:Ed; cbn [option_map]; [|reflexivity].
+    unfold dexp in Ed. rewrite dkey_div, dkey_mod in Ed by lia.
+    destruct (dsel ds life live u && (dd_node (ddesc_of ds u) =? node)); [|discriminate].
+    destruct (find (fun g => fst g =? t') (dd_groups (ddesc_of ds u))) as [g|] eqn:Eg; [|discriminate].
+    injection Ed as <-. apply find_some in Eg. destruct Eg as [Hg Et]. apply Z.eqb_eq in Et. subst t'.
+    unfold ref_spec. cbn [filter dalloc pa_cpus]. unfold gvfs.
+    rewrite (gvf_mem t (fst g) code _ Ht Ht' Hc (fun x Hx => vfs_bounds u (fst g) x Hv Hx)).
+    destruct (fst g =? t) eqn:E; cbn [andb].
+    - apply Z.eqb_eq in E. rewrite E. destruct (memZ code (vfs_of (ddesc_of ds u) t)); reflexivity.
+    - reflexivity.
+  Qed.
+
+  Lemma block_vf u t code :
+    dvalid ds u = true -> (t = 1 \/ t = 2) -> 0 <= code < 100000 ->
+    ref_spec (flat_map (pick ps) (range_list (10 * u) 10)) (gvf t code) =
+    vcontrib t code ((u, 1), entry u 1) + (vcontrib t code ((u, 2), entry u 2) + 0).
+  Proof.
+    intros Hv Ht Hc.
+    change (range_list (10 * u) 10) with
+      [10 * u; 10 * u + 1; 10 * u + 1 + 1; 10 * u + 1 + 1 + 1; 10 * u + 1 + 1 + 1 + 1; 10 * u + 1 + 1 + 1 + 1 + 1;
+       10 * u + 1 + 1 + 1 + 1 + 1 + 1; 10 * u + 1 + 1 + 1 + 1 + 1 + 1 + 1; 10 * u + 1 + 1 + 1 + 1 + 1 + 1 + 1 + 1;
+       10 * u + 1 + 1 + 1 + 1 + 1 + 1 + 1 + 1 + 1].
+    replace (10 * u) with (dkey u 0) by (unfold dkey; lia).
+    replace (dkey u 0 + 1) with (dkey u 1) by (unfold dkey; lia).
+    replace (dkey u 1 + 1) with (dkey u 2) by (unfold dkey; lia).
+    replace (dkey u 2 + 1) with (dkey u 3) by (unfold dkey; lia).
+    replace (dkey u 3 + 1) with (dkey u 4) by (unfold dkey; lia).
+    replace (dkey u 4 + 1) with (dkey u 5) by (unfold dkey; lia).
+    replace (dkey u 5 + 1) with (dkey u 6) by (unfold dkey; lia).
+    replace (dkey u 6 + 1) with (dkey u 7) by (unfold dkey; lia).
+    replace (dkey u 7 + 1) with (dkey u 8) by (unfold dkey; lia).
+    replace (dkey u 8 + 1) with (dkey u 9) by (unfold dkey; lia).
+    cbn [flat_map].
+    rewrite (pick_other u 0), (pick_other u 3), (pick_other u 4), (pick_other u 5), (pick_other u 6),
+            (pick_other u 7), (pick_other u 8), (pick_other u 9) by (try exact Hv; lia).
+    cbn [app]. rewrite app_nil_r, ref_spec_app.
+    rewrite (pick_vf u 1 t code Hv (or_introl eq_refl) Ht Hc), (pick_vf u 2 t code Hv (or_intror eq_refl) Ht Hc). lia.
+  Qed.
+
+  Lemma vf_ok t code :
+    (t = 1 \/ t = 2) -> 0 <= code < 100000 ->
+    (0 <? ns_ref st node (gvf t code)) =
+    vf_from ds (flat_map (fun u => map (entry u) types12) (zrange 1 np)) np t code.
+  Proof.
+    intros Ht Hc. destruct (inv_ledger _ _ HI node) as (L1 & _). rewrite L1. fold ps.
+    assert (Hnd : NoDup (map pa_uid ps)) by apply (inv_keys _ _ HI).
+    rewrite (ref_spec_perm _ _ _ (perm_by_uid (10 * np) 10 ps Hnd keys_bounds)).
+    rewrite range_blocks. unfold vf_from. rewrite combine_pairs.
+    assert (Hsum : ref_spec (flat_map (pick ps) (flat_map (fun u => range_list (10 * u) 10) (range_list 1 np))) (gvf t code) =
+                   fold_right (fun ka acc => vcontrib t code ka + acc) 0
+                     (flat_map (fun u => map (fun t0 => ((u, t0), entry u t0)) types12) (zrange 1 np))).
+    { unfold zrange. assert (Hall : forall u, In u (range_list 1 np) -> dvalid ds u = true) by (intros u Hu; apply uid_valid, Hu).
+      revert Hall. generalize (range_list 1 np). induction l as [|u r IH]; intros Hall; [reflexivity|].
+      cbn [flat_map]. rewrite flat_map_app, ref_spec_app, (block_vf u t code (Hall u (or_introl eq_refl)) Ht Hc).
+      rewrite IH by (intros x Hx; apply Hall; right; exact Hx).
+      cbn [types12 map app fold_right]. lia. }
+    rewrite Hsum, sum01_pos.
+    - apply existsb_ext'. intros ka. unfold vcontrib. destruct (snd ka); [|reflexivity].
+      destruct ((snd (fst ka) =? t) && memZ code (vfs_of (ddesc_of ds (fst (fst ka))) t)); reflexivity.
+    - intros ka. unfold vcontrib. destruct (snd ka); [|left; reflexivity].
+      destruct ((snd (fst ka) =? t) && memZ code (vfs_of (ddesc_of ds (fst (fst ka))) t)); [right|left]; reflexivity.
+  Qed.
+
   Hypothesis Hminors : d_minors c <= 1000.
+
+  Hypothesis Hnvf : 0 <= d_nvf c <= 100.
 
   Lemma dsnap_good : dsnap_code c life live node (dsnap_node c st node) = 0.
   Proof.
-    unfold dsnap_code. fold ds np. cbn [dsnap_node ds_aset ds_devs].
+    unfold dsnap_code. fold ds np. cbn [dsnap_node ds_aset ds_devs ds_vfs].
     change (fun uid => map (fun t => option_map (fun p => map (fun e => (fst e - t * 1000, snd e)) (pa_numa p))
                                      (find_pod (ns_pods st) node (dkey uid t))) types12)
       with (fun uid => map (entry uid) types12).
     fold ds. fold np.
-    rewrite !flat_map_pairs_length, !flat_map_types_length, !Nat.eqb_refl. cbn [andb negb].
+    set (vfk := flat_map (fun t => flat_map (fun m => map (fun i => (t, m * 100 + i)) (zrange 0 (Z.to_nat (d_nvf c))))
+                                            (zrange 0 (Z.to_nat (d_minors c)))) types12).
+    set (vfv := flat_map (fun t => flat_map (fun m => map (fun i => if 0 <? ns_ref st node (gvf t (m * 100 + i)) then 1 else 0)
+                                                          (zrange 0 (Z.to_nat (d_nvf c))))
+                                            (zrange 0 (Z.to_nat (d_minors c)))) types12).
+    assert (Hlenv : length vfv = length vfk).
+    { unfold vfv, vfk. apply flat_map_length_eq. intros t _. apply flat_map_length_eq. intros m _. rewrite !map_length. reflexivity. }
+    rewrite !flat_map_pairs_length, !flat_map_types_length, Hlenv, !Nat.eqb_refl. cbn [andb negb].
     rewrite aset_ok. cbn [Z.eqb negb].
     set (devs := flat_map (fun t => map (fun m => (t, m)) (zrange 0 (Z.to_nat (d_minors c)))) types12).
     set (vals := flat_map (fun t => map (fun m => let u := ns_res st node (dslot t m) in (u, pair_sub0 (dtotal c t) u))
@@ -268,9 +402,22 @@ Section DevSnap.
     2:{ symmetry. apply forallb_forall. intros x Hx. destruct (Hin x Hx) as (Ht & Hm & Hv). rewrite Hv. cbn [fst snd].
         rewrite (used_ok _ _ Ht Hm). unfold eq_pair. rewrite !Z.eqb_refl. reflexivity. }
     cbn [negb].
-    replace (forallb _ _) with true; [reflexivity|].
-    symmetry. apply forallb_forall. intros x Hx. destruct (Hin x Hx) as (_ & _ & Hv). rewrite Hv. cbn [fst snd].
-    unfold eq_pair. rewrite !Z.eqb_refl. reflexivity.
+    replace (forallb _ (flat_map _ types12)) with true.
+    2:{ symmetry. apply forallb_forall. intros x Hx. destruct (Hin x Hx) as (_ & _ & Hv). rewrite Hv. cbn [fst snd].
+        unfold eq_pair. rewrite !Z.eqb_refl. reflexivity. }
+    cbn [negb].
+    replace (forallb _ (combine vfk vfv)) with true; [reflexivity|].
+    symmetry. apply forallb_forall. intros [[t code] b] Hx. cbn [fst snd].
+    unfold vfk, vfv in Hx.
+    rewrite combine_flat_map in Hx by (intros t0 _; apply flat_map_length_eq; intros m _; rewrite !map_length; reflexivity).
+    apply in_flat_map in Hx. destruct Hx as (t0 & Ht0 & Hx).
+    rewrite combine_flat_map in Hx by (intros m _; rewrite !map_length; reflexivity).
+    apply in_flat_map in Hx. destruct Hx as (m & Hm & Hx). rewrite combine_map_map' in Hx.
+    apply in_map_iff in Hx. destruct Hx as (i & He & Hi). injection He as <- <- <-.
+    apply range_list_In in Hm. apply range_list_In in Hi.
+    assert (Ht : t0 = 1 \/ t0 = 2) by (cbn in Ht0; destruct Ht0 as [<-|[<-|[]]]; auto).
+    rewrite (vf_ok t0 (m * 100 + i) Ht) by (pose proof dcase_minors; lia).
+    apply Z.eqb_refl.
   Qed.
 End DevSnap.
 
@@ -288,7 +435,7 @@ Section DevRun.
     replace (Z.of_nat (Z.to_nat (d_nodes c)) =? d_nodes c) with true by (symmetry; apply Z.eqb_eq; lia). cbn [negb].
     rewrite combine_map_r. apply first_nz_zero. intros x Hx. apply in_map_iff in Hx.
     destruct Hx as ([n s] & <- & Hin). apply in_map_iff in Hin. destruct Hin as (n' & He & _). injection He as <- <-.
-    cbn [fst snd]. apply (dsnap_good c Hok st life live n' HI HL Hminors).
+    cbn [fst snd]. apply (dsnap_good c Hok st life live n' HI HL Hminors). apply dcase_nvf, Hok.
   Qed.
 
   Lemma dstep_ok l :
